@@ -25,7 +25,7 @@ func init() {
 			known := r.P.Field("connectors/kinesis", "SplitTracker", "knownSplits")
 			parents := r.P.Field("connectors/kinesis", "SourceSplitterShard", "ParentIDs")
 			var loop *ast.RangeStmt
-			ast.Inspect(f.Decl.Body, func(nd ast.Node) bool {
+			inspect(f.Decl.Body, func(nd ast.Node) bool {
 				if rs, ok := nd.(*ast.RangeStmt); ok && loop == nil && exprUsesField(info, rs.X, known) {
 					loop = rs
 				}
@@ -38,7 +38,7 @@ func init() {
 			split := prog.IdentObj(info, loop.Value)
 			var assignedVar, parentVar types.Object
 			var result types.Object
-			ast.Inspect(loop.Body, func(nd ast.Node) bool {
+			inspect(loop.Body, func(nd ast.Node) bool {
 				as, ok := nd.(*ast.AssignStmt)
 				if !ok || len(as.Rhs) != 1 {
 					return true
@@ -112,7 +112,7 @@ func init() {
 			rm := r.P.Func("connectors/kinesis", "(*SplitTracker).RemoveSplits")
 			ri := rm.Pkg.TypesInfo
 			delKnown, delAssigned := false, false
-			ast.Inspect(rm.Decl.Body, func(nd ast.Node) bool {
+			inspect(rm.Decl.Body, func(nd ast.Node) bool {
 				if call, ok := nd.(*ast.CallExpr); ok {
 					if sel, ok := ast.Unparen(call.Fun).(*ast.SelectorExpr); ok && sel.Sel.Name == "Delete" && prog.SelField(ri, sel.X) == known {
 						delKnown = true
@@ -207,7 +207,7 @@ func init() {
 				return ok && prog.SelField(in, sel.X) == tracker
 			}
 			found := false
-			ast.Inspect(ck.Decl.Body, func(nd ast.Node) bool {
+			inspect(ck.Decl.Body, func(nd ast.Node) bool {
 				cl, ok := nd.(*ast.CompositeLit)
 				if !ok || info.TypeOf(cl) != stateT.Type() {
 					return true
@@ -228,7 +228,7 @@ func init() {
 						r.Site(kv.Pos(), "Checkpoint: AssignedShards <- AssignedSplits() converted index by index")
 						dst := prog.IdentObj(info, kv.Value)
 						okFill := false
-						ast.Inspect(ck.Decl.Body, func(m ast.Node) bool {
+						inspect(ck.Decl.Body, func(m ast.Node) bool {
 							rs, ok := m.(*ast.RangeStmt)
 							if !ok || !onTracker(info, resolveLocal(info, ck.Decl.Body, rs.X), assignedSplits) {
 								return true
@@ -266,7 +266,7 @@ func init() {
 			lastF := r.P.Field("connectors/kinesis/kinesispb", "SplitterState", "LastAssignedShardId")
 			getLast := r.P.FuncObj("connectors/kinesis/kinesispb", "(*SplitterState).GetLastAssignedShardId")
 			okLoad := false
-			ast.Inspect(st.Decl.Body, func(nd ast.Node) bool {
+			inspect(st.Decl.Body, func(nd ast.Node) bool {
 				call, ok := nd.(*ast.CallExpr)
 				if !ok || r.P.CalleeFunc(si, call) != load.Obj || len(call.Args) != 2 {
 					return true
@@ -287,7 +287,7 @@ func init() {
 			// LoadSplits stores its second parameter
 			lastID := r.P.Field("connectors/kinesis", "SplitTracker", "LastAssignedSplitID")
 			okStore := false
-			ast.Inspect(load.Decl.Body, func(nd ast.Node) bool {
+			inspect(load.Decl.Body, func(nd ast.Node) bool {
 				if as, ok := nd.(*ast.AssignStmt); ok && len(as.Lhs) == 1 && len(as.Rhs) == 1 && prog.SelField(load.Pkg.TypesInfo, as.Lhs[0]) == lastID && r.isParam(load, as.Rhs[0], 1) {
 					okStore = true
 				}
@@ -325,7 +325,7 @@ func init() {
 			ta := r.P.Func("connectors/kinesis", "(*SplitTracker).TrackAssigned")
 			ti := ta.Pkg.TypesInfo
 			okAdv := false
-			ast.Inspect(ta.Decl.Body, func(nd ast.Node) bool {
+			inspect(ta.Decl.Body, func(nd ast.Node) bool {
 				as, ok := nd.(*ast.AssignStmt)
 				if !ok || len(as.Lhs) != 1 || len(as.Rhs) != 1 || prog.SelField(ti, as.Lhs[0]) != lastID {
 					return true
@@ -363,14 +363,14 @@ func init() {
 			if n == 0 {
 				r.Fail(f.Name()+":no-track", f.Decl.Pos(), nil, "assignShards never records the shards as assigned: they are handed out again at the next discovery tick")
 			}
-			ast.Inspect(f.Decl.Body, func(nd ast.Node) bool {
+			inspect(f.Decl.Body, func(nd ast.Node) bool {
 				if call, ok := nd.(*ast.CallExpr); ok && r.P.CalleeFunc(info, call) == track {
 					if len(call.Args) != 1 || !r.isParam(f, call.Args[0], 1) {
 						r.Fail(f.Name()+":track-arg", call.Pos(), nil, "TrackAssigned is not given the shards that were just assigned")
 					}
 				}
 				if rs, ok := nd.(*ast.RangeStmt); ok && r.isParam(f, rs.X, 1) {
-					ast.Inspect(rs.Body, func(m ast.Node) bool {
+					inspect(rs.Body, func(m ast.Node) bool {
 						if b, ok := m.(*ast.BranchStmt); ok {
 							r.Fail(f.Name()+":partial", b.Pos(), nil, "assignShards can skip shards (%s) that it nevertheless records as assigned", b.Tok)
 						}
@@ -382,7 +382,7 @@ func init() {
 			// cursor restored
 			cursors := r.P.Field("connectors/kinesis", "SourceSplitter", "cursors")
 			okCursor := false
-			ast.Inspect(f.Decl.Body, func(nd ast.Node) bool {
+			inspect(f.Decl.Body, func(nd ast.Node) bool {
 				if kv, ok := nd.(*ast.KeyValueExpr); ok {
 					if id, ok := kv.Key.(*ast.Ident); ok && id.Name == "Cursor" && exprUsesField(info, kv.Value, cursors) {
 						okCursor = true
@@ -400,14 +400,14 @@ func init() {
 			load := r.P.FuncObj("connectors/kinesis", "(*SplitTracker).LoadSplits")
 			avail := r.P.FuncObj("connectors/kinesis", "(*SplitTracker).AvailableSplits")
 			var loaded types.Object
-			ast.Inspect(st.Decl.Body, func(nd ast.Node) bool {
+			inspect(st.Decl.Body, func(nd ast.Node) bool {
 				if call, ok := nd.(*ast.CallExpr); ok && r.P.CalleeFunc(si, call) == load && len(call.Args) >= 1 {
 					loaded = prog.IdentObj(si, call.Args[0])
 				}
 				return true
 			})
 			r.Site(st.Decl.Pos(), "Start: restored shards reach the assignment once")
-			ast.Inspect(st.Decl.Body, func(nd ast.Node) bool {
+			inspect(st.Decl.Body, func(nd ast.Node) bool {
 				as, ok := nd.(*ast.AssignStmt)
 				if !ok || len(as.Rhs) != 1 {
 					return true
@@ -428,7 +428,7 @@ func init() {
 			// cursors restored from the split states before the first assignment
 			assignFn := f.Obj
 			var cursorPos, assignPos token.Pos
-			ast.Inspect(st.Decl.Body, func(nd ast.Node) bool {
+			inspect(st.Decl.Body, func(nd ast.Node) bool {
 				if as, ok := nd.(*ast.AssignStmt); ok && len(as.Lhs) == 1 {
 					if ix, ok := ast.Unparen(as.Lhs[0]).(*ast.IndexExpr); ok && prog.SelField(si, ix.X) == cursors {
 						cursorPos = as.Pos()
@@ -459,7 +459,7 @@ func (r *Run) nilReceiverCheck(info *types.Info, fd *ast.FuncDecl) {
 		pos token.Pos
 	}
 	var decls []decl
-	ast.Inspect(fd.Body, func(nd ast.Node) bool {
+	inspect(fd.Body, func(nd ast.Node) bool {
 		if vs, ok := nd.(*ast.ValueSpec); ok && len(vs.Values) == 0 {
 			for _, n := range vs.Names {
 				if o := info.Defs[n]; o != nil {
@@ -473,7 +473,7 @@ func (r *Run) nilReceiverCheck(info *types.Info, fd *ast.FuncDecl) {
 	})
 	for _, d := range decls {
 		var firstAssign token.Pos = token.Pos(1 << 40)
-		ast.Inspect(fd.Body, func(nd ast.Node) bool {
+		inspect(fd.Body, func(nd ast.Node) bool {
 			switch x := nd.(type) {
 			case *ast.AssignStmt:
 				for _, l := range x.Lhs {
@@ -488,7 +488,7 @@ func (r *Run) nilReceiverCheck(info *types.Info, fd *ast.FuncDecl) {
 			}
 			return true
 		})
-		ast.Inspect(fd.Body, func(nd ast.Node) bool {
+		inspect(fd.Body, func(nd ast.Node) bool {
 			call, ok := nd.(*ast.CallExpr)
 			if !ok || call.Pos() > firstAssign {
 				return true
@@ -512,7 +512,7 @@ func (r *Run) checkLiteralSetsAllFields(f *prog.FuncInfo, tn *types.TypeName, sk
 	info := f.Pkg.TypesInfo
 	st := tn.Type().Underlying().(*types.Struct)
 	found := false
-	ast.Inspect(f.Decl.Body, func(nd ast.Node) bool {
+	inspect(f.Decl.Body, func(nd ast.Node) bool {
 		cl, ok := nd.(*ast.CompositeLit)
 		if !ok || info.TypeOf(cl) != tn.Type() {
 			return true
@@ -555,7 +555,7 @@ func (r *Run) fieldCorrespondence(f *prog.FuncInfo, want map[string][]string) {
 	}
 	var mentions func(e ast.Node, seen map[types.Object]bool, out map[string]bool)
 	flows := func(obj types.Object, seen map[types.Object]bool, out map[string]bool) {
-		ast.Inspect(f.Decl.Body, func(nd ast.Node) bool {
+		inspect(f.Decl.Body, func(nd ast.Node) bool {
 			switch x := nd.(type) {
 			case *ast.AssignStmt:
 				for _, l := range x.Lhs {
@@ -576,7 +576,7 @@ func (r *Run) fieldCorrespondence(f *prog.FuncInfo, want map[string][]string) {
 		})
 	}
 	mentions = func(e ast.Node, seen map[types.Object]bool, out map[string]bool) {
-		ast.Inspect(e, func(nd ast.Node) bool {
+		inspect(e, func(nd ast.Node) bool {
 			switch x := nd.(type) {
 			case *ast.SelectorExpr:
 				if v, ok := info.Uses[x.Sel].(*types.Var); ok && v.IsField() && sources[v.Name()] {
@@ -595,7 +595,7 @@ func (r *Run) fieldCorrespondence(f *prog.FuncInfo, want map[string][]string) {
 		})
 	}
 	var lit *ast.CompositeLit
-	ast.Inspect(f.Decl.Body, func(nd ast.Node) bool {
+	inspect(f.Decl.Body, func(nd ast.Node) bool {
 		if rs, ok := nd.(*ast.ReturnStmt); ok && len(rs.Results) >= 1 && lit == nil {
 			e := ast.Unparen(rs.Results[0])
 			if u, ok := e.(*ast.UnaryExpr); ok && u.Op == token.AND {
@@ -669,7 +669,7 @@ func joinSet(m map[string]bool) string {
 // `if x.G != nil` uses the guarded field itself (F == G).
 func (r *Run) nilGuardedDerefs(f *prog.FuncInfo) {
 	info := f.Pkg.TypesInfo
-	ast.Inspect(f.Decl.Body, func(nd ast.Node) bool {
+	inspect(f.Decl.Body, func(nd ast.Node) bool {
 		is, ok := nd.(*ast.IfStmt)
 		if !ok {
 			return true
@@ -687,7 +687,7 @@ func (r *Run) nilGuardedDerefs(f *prog.FuncInfo) {
 		}
 		if be.Op == token.EQL {
 			// `if x.F == nil { ... *x.F ... }` dereferences a pointer just established nil
-			ast.Inspect(is.Body, func(m ast.Node) bool {
+			inspect(is.Body, func(m ast.Node) bool {
 				if st, ok := m.(*ast.StarExpr); ok && prog.SelField(info, st.X) == g {
 					r.Fail(f.Name()+":nil-deref:"+g.Name(), st.Pos(), nil, "%s is dereferenced in the branch where it was just found nil (inverted guard): the field is never recorded when present and the function panics when it is absent", g.Name())
 				}
@@ -695,7 +695,7 @@ func (r *Run) nilGuardedDerefs(f *prog.FuncInfo) {
 			})
 			return true
 		}
-		ast.Inspect(is.Body, func(m ast.Node) bool {
+		inspect(is.Body, func(m ast.Node) bool {
 			st, ok := m.(*ast.StarExpr)
 			if !ok {
 				return true
